@@ -626,6 +626,14 @@ def run(repo, tier):
     check_integer_directives(rep, model, doc_text)
     check_strings(rep, model)
     check_include_bytes(rep, model)
+    # every data item owns the bytes it emits (a scratch buffer shared between directives gives all of them the last one's bytes)
+    from .. import layoutrules as _LR
+    for name_ in ('resolve_strings', 'resolve_sequences', 'transform_shorthand_packs', 'resolve_packs', 'resolve_include_bytes'):
+        if name_ in facts.funcs:
+            try:
+                _LR.check_shared_buffers(rep, facts, _LR.pass_analysis(facts, name_), 'R10.6.own-payload')
+            except AnalysisError as e:
+                rep.undecided(str(e))
     rep.floor('width table rows', 9)
     rep.floor('sign/format cases', 18)
     rep.floor('pack sites', 1)
